@@ -56,6 +56,9 @@ checks = {
  "C15": dict(engine="wgen(hostile)+wref(policy)+spvx+text interpreters", technique="runtime monitoring: programs in a hostile profile (unguarded dynamic indices taken from buffer data, raw shift amounts, raw float-to-int conversions, run-time divisors, reads of variables without initialiser) x boundary-biased 32-bit inputs, compiled with each backend's protective options and executed in trapping interpreters; every trap is the violation, results are compared with the reference evaluator applying the same bounds-check policy",
    text="Held on the executions observed in four lanes: SPIR-V (default wrappers, zero-init), MSL (Restrict and ReadZeroSkipWrite), HLSL (RestrictIndexing on function/private/workgroup data), GLSL (operators only; this naga has no GLSL index policy). Unprotected paths found (SPIR-V shifts and conversions, HLSL storage indexing, MSL runtime-array globals in helpers, GLSL division) are listed findings with witnesses.",
    note="Trusted base: the interpreters' trap monitors (out-of-object access, poison read, division by zero/overflow, out-of-range conversion, oversized shift) and wref's policy semantics (restrict = clamp to last element, rzsw = read zero / skip write).", ref="DESIGN.md §4 C15"),
+ "C16": dict(engine="adversarial name pool + text interpreters' scope resolvers + wref", technique="runtime monitoring: (1) every (word, declaration position) pair from a pool of adversarial names (reserved words / type names / intrinsics of the three targets taken from the interpreters' specification tables, naga's own helper and temporary spellings, case / digit / underscore variants, Unicode identifiers) in a template with known result, (2) injective adversarial renamings of generated programs; each emitted HLSL / MSL / GLSL text is scope-resolved by an independent front end (reserved identifier, redeclaration, unresolved reference = static trap), the entry point is looked up through EntryPointNames and the code is executed and compared with the expected result",
+   text="Held on the (word, position, backend) triples observed (quick: a PRNG-chosen slice, thorough: the whole pool x 10 positions x 3 backends) outside five listed finding groups (gl_ prefix, HLSL sampler keywords, MSL simd/ulong, user functions named like texture built-ins, collisions with generated helper names).",
+   note="Words whose status depends on compiler / language version / a using-directive (HLSL intrinsics and *_t types, metal:: type names, GLSL 4.60-only keywords, names containing __) are counted as not judged rather than as violations.", ref="DESIGN.md §4 C16"),
 }
 pending = {}
 for p in ALL:
